@@ -42,6 +42,17 @@ def msg_cases(rng, tier, types=None, per_type=None, modes=('mixed', 'random', 'o
             out.append(M(gen.pack(gen.message_bits(rng, t, mode))))
     return with_truncations(rng, out)
 
+def bulk_cases(rng, tier, types=None, per_type=None):
+    """plain volume: plausible payloads of every type (identities with decimal structure, all other
+    fields uniformly random) — finds dependences of a field on the *value* of another field that
+    boundary-directed cases do not aim at"""
+    per_type = per_type or scale(tier, 6000, 60000)
+    out = []
+    for t in (types or gen.SUPPORTED):
+        for i in range(per_type):
+            out.append(M(gen.pack(gen.message_bits(rng, t, 'decimal' if i % 4 else 'random'))))
+    return out
+
 def one_field_cases(rng, tier, types=None):
     """each field of each layout at its extremes / single bits / sentinels with neighbours all-zero,
     all-one and random"""
@@ -186,6 +197,17 @@ def text_cases(rng, tier):
                 chars = [rng.randrange(64) if style == 0 else rng.choice([0, 32, 1, 33]) for _ in range(n)]
                 bits = gen.bits_of(head, vals) + ''.join(format(c, '06b') for c in chars)
                 out.append(M(gen.pack(bits)))
+            # a body followed by padding: '@' and space runs in every order, body lengths around the
+            # 20-character capacity of the build without an allocator
+            for m in sorted(set(x for x in (0, 1, n // 2, n - 3, n - 2, n - 1, n, 18, 19, 20, 21) if 0 <= x <= n)):
+                for tail in ('at', 'sp', 'at-sp', 'sp-at', 'mix'):
+                    vals = gen.rand_values(rng, head, 'random'); vals['type'] = t
+                    r = n - m
+                    pad = {'at': [0] * r, 'sp': [32] * r, 'at-sp': [0] * (r // 2) + [32] * (r - r // 2),
+                           'sp-at': [32] * (r // 2) + [0] * (r - r // 2), 'mix': [rng.choice([0, 32]) for _ in range(r)]}[tail]
+                    chars = [rng.randrange(1, 32) for _ in range(m)] + pad
+                    bits = gen.bits_of(head, vals) + ''.join(format(c, '06b') for c in chars)
+                    out.append(M(gen.pack(bits)))
     return with_truncations(rng, out)
 
 def radio_cases(rng, tier):
@@ -380,7 +402,8 @@ def sentence_sweeps(rng, tier, decode=0):
     from . import sweep
     pay, fill = gen.armor(gen.message_bits(rng, rng.choice([1, 5, 18, 24])))
     pay = pay[:9]
-    lines = [gen.sentence(b'15M', 0), gen.sentence(pay, 2, 2, 1, 7, chan=b'B'), gen.sentence(pay, 0, 12, 10, 3, chan=b'')]
+    lines = [gen.sentence(b'15M', 0), gen.sentence(pay, 2, 2, 1, 7, chan=b'B'), gen.sentence(pay, 0, 12, 10, 3, chan=b''),
+             gen.sentence(b'15M', 0, tag=b's:r!*4A')]
     if tier != 'quick':
         lines += [gen.sentence(pay, 0, tag=b's:r,c:12*4A'), gen.sentence(pay, 5, 1, 1, 0, start=b'$'), gen.sentence(b'', 0), gen.sentence(pay, 0, tail=b'\r')]
     out = []
@@ -522,6 +545,12 @@ def checksum_cases(rng, tier):
         s = gen.valid_sentence(rng)
         bodies.append(s)
     bodies += [f1, f2, gen.sentence(b'15M', 0), gen.sentence(b'1*5M', 0), gen.sentence(b'15M', 0, chan=b'*'), gen.sentence(b'15M', 0, addr=b'A*VDM')]
+    # tag blocks whose text contains the characters that delimit the checksummed body
+    tagged = [gen.sentence(b'15M', 0, tag=t, start=st) for st in (b'!', b'$')
+              for t in (b's:ST!N01,c:1696241893*37', b't:ahoy!*1A', b's:rx$7*00', b'g:1-2-3*5F', b'x!AIVDM,1,1,,A,15M,0*6F',
+                        b'a*b', b'$', b'!', b'!*', b'$AI*00', b's:1*6F')]
+    tagged.append(gen.fragment(rng, pay2, 2, 2, 7)[1].replace(b'!', b'\\s:AB!g:2-2-1*2A\\!', 1))
+    bodies += tagged
     for s in bodies:
         star = s.rindex(b'*')
         for v in range(256):
@@ -530,7 +559,7 @@ def checksum_cases(rng, tier):
             if v % 5 == 0:      # long digit runs: only the first eight digits are read
                 for fmt in (b'%08X', b'1%08X', b'%09X', b'F0%08X', b'%07X', b'%012X', b'1000%08x'):
                     hist(priors[v % 3], s[:star + 1] + fmt % v)
-    base = [gen.valid_sentence(rng) for _ in range(scale(tier, 60, 800))] + [f2]
+    base = [gen.valid_sentence(rng) for _ in range(scale(tier, 60, 800))] + [f2] + tagged[:4]
     for s in base:
         for i in range(len(s)):
             reps = {s[i] ^ (1 << b) for b in range(8)} | {42, 44, 33, 36, 92} | {rng.getrandbits(8) for _ in range(4)}
